@@ -189,7 +189,7 @@ func runC15(tier string) int {
 	// the last clause over the control-flow program families: in every program, with the script written without a
 	// modifier, as (global) and as (local), every sub-label is local, the script label follows the modifier, and every
 	// label written in the script is local
-	plans, swN := enginePlans(tier)
+	plans, swN := liftPlans(tier)
 	forEachEngineProgram(r, plans, swN, func(w int, p engineProgram) {
 		scripts := []*model.Script{p.Script}
 		base := model.Print(scripts)
